@@ -112,7 +112,7 @@ func (t *traceApplier) Apply(op *operation.AnchoredOperation, rm *protocol.Resol
 
 // tracedResolve resolves with a traced version; returns result, the trace applier and a budget-exceeded flag.
 func tracedResolve(p protocol.Protocol, suffix string, ops []*ref.Op, order []int) (rm *protocol.ResolutionModel, err error, ta *traceApplier, exceeded bool) {
-	v := hx.NewVersion(p, hx.VersionOpts{})
+	v := hx.NewVersion(p, hx.VersionOpts{ParserOpts: hx.StrictResolution()})
 	ta = newTraceApplier(v.Applier, len(ops))
 	v.Applier = ta
 	pc := hx.NewClient(v)
